@@ -1,6 +1,8 @@
 package main
 
 import (
+	"fmt"
+	"go/constant"
 	"go/token"
 	"go/types"
 	"sort"
@@ -193,6 +195,15 @@ func deciderOf(v ssa.Value) string {
 			}
 		}
 		l, rr := deciderOf(x.X), deciderOf(x.Y)
+		// an integer compared with a constant: named by the boundary it draws (between lo and lo+1), so that t < 0,
+		// 0 <= t, t >= 0, t <= -1 - one test, spelled four ways - share a key, and a moved bound does not
+		if cmp, side, ok := intBoundary(x); ok {
+			d := deciderOf(side)
+			if d != "" && d != "load" && d != "value" {
+				return d + " " + cmp + " const"
+			}
+			return cmp + " const"
+		}
 		op := x.Op.String()
 		switch x.Op {
 		case token.EQL:
@@ -394,6 +405,12 @@ func paramFields(fn *ssa.Function, v ssa.Value) []string {
 		case *ssa.Lookup:
 			// table[key] with both sides simple: keep the pairing ("recv.K[Message.To]")
 			if b, i := paramFields(fn, y.X), paramFields(fn, y.Index); len(b) == 1 && len(i) == 1 && !strings.HasSuffix(b[0], "()") && d < 50 {
+				if b[0] == i[0] {
+					// a table indexed by a key taken from ranging over that same table: an element of it, as the value
+					// variable of that range is (`for k := range t { t[k] }` / `for _, v := range t { v }`)
+					set[b[0]] = true
+					return
+				}
 				set[b[0]+"["+i[0]+"]"] = true
 				return
 			}
@@ -1038,6 +1055,9 @@ func liftFrom(fn *ssa.Function, call *ssa.Call, g *ssa.Function, onParam bool, c
 						bs, is := translate(fl[:i]), translate(fl[i+1:j])
 						rest := fl[j+1:]
 						if len(bs) == 1 && len(is) == 1 {
+							if bs[0] == is[0] {
+								return []string{bs[0] + rest} // (an element of the table the key was ranged from)
+							}
 							return []string{bs[0] + "[" + is[0] + "]" + rest}
 						}
 						return append(bs, is...)
@@ -1655,4 +1675,50 @@ func passesOnCallError(pred, b *ssa.BasicBlock) bool {
 		}
 	}
 	return false
+}
+
+// intBoundary: x compares an integer value with an integer constant by <, <=, >, >=; returns "cmp lo|lo+1" where the
+// comparison separates the values <= lo from those >= lo+1, and the non-constant side.
+func intBoundary(x *ssa.BinOp) (string, ssa.Value, bool) {
+	op := x.Op
+	side, kv := x.X, x.Y
+	if _, isC := x.X.(*ssa.Const); isC {
+		side, kv = x.Y, x.X
+		switch op {
+		case token.LSS:
+			op = token.GTR
+		case token.GTR:
+			op = token.LSS
+		case token.LEQ:
+			op = token.GEQ
+		case token.GEQ:
+			op = token.LEQ
+		}
+	}
+	if p, isP := stripConv(kv).(*ssa.Parameter); isP && deciderBind != nil {
+		if a, bound := deciderBind[p]; bound {
+			kv = stripConv(a)
+		}
+	}
+	k, isC := kv.(*ssa.Const)
+	if !isC || k.Value == nil || k.Value.Kind() != constant.Int {
+		return "", nil, false
+	}
+	if _, sideConst := side.(*ssa.Const); sideConst {
+		return "", nil, false
+	}
+	if bt, isB := side.Type().Underlying().(*types.Basic); !isB || bt.Info()&types.IsInteger == 0 {
+		return "", nil, false
+	}
+	v, exact := constant.Int64Val(k.Value)
+	if !exact || v < -(1<<62) || v > 1<<62 {
+		return "", nil, false
+	}
+	switch op {
+	case token.LSS, token.GEQ:
+		return fmt.Sprintf("cmp %d|%d", v-1, v), side, true
+	case token.LEQ, token.GTR:
+		return fmt.Sprintf("cmp %d|%d", v, v+1), side, true
+	}
+	return "", nil, false
 }
